@@ -1,4 +1,243 @@
-// Kani harnesses mounted inside src/wrapping.rs (child module: sees private items)
+// Kani harnesses mounted inside src/wrapping.rs (child module: sees private items).
+//
+// C12 / C20: block-scalar helpers. `first_line_leading_spaces` decides whether an explicit
+// indentation indicator is written; `write_folded_block` wraps folded scalars at spaces only.
+use super::*;
+use crate::verif_common::stdlite;
+use crate::verif_common::{any_utf8, as_str};
+
+/// Fixed-capacity sink (no heap).
+struct Sink<const CAP: usize> {
+    b: [u8; CAP],
+    n: usize,
+}
+
+impl<const CAP: usize> Write for Sink<CAP> {
+    fn write_str(&mut self, s: &str) -> std::fmt::Result {
+        let sb = s.as_bytes();
+        if self.n + sb.len() > CAP {
+            return Err(std::fmt::Error);
+        }
+        let mut i = 0;
+        while i < sb.len() {
+            self.b[self.n + i] = sb[i];
+            i += 1;
+        }
+        self.n += sb.len();
+        Ok(())
+    }
+}
+
+// ------------------------------------------------------------------------------------------
+// first_line_leading_spaces: number of leading ASCII spaces of the first line that is not empty
+// (a line consisting only of spaces IS non-empty: it determines the indentation the reader
+// auto-detects, so it must trigger the explicit indicator).
+// ------------------------------------------------------------------------------------------
+fn leading_spaces_n<const N: usize>() {
+    let a: [u8; N] = any_utf8::<N>();
+    let got = first_line_leading_spaces(as_str(&a));
+    // reference
+    let mut i = 0;
+    let mut want = 0usize;
+    while i < N {
+        if a[i] == b'\n' {
+            i += 1; // empty line
+            continue;
+        }
+        // first non-empty line starts here
+        let mut j = i;
+        while j < N && a[j] == b' ' {
+            j += 1;
+        }
+        want = j - i;
+        break;
+    }
+    assert!(got == want, "leading spaces of the first non-empty line miscounted (indentation indicator decision)");
+    kani::cover!(want > 0 && a[0] == b'\n', "indented line after an empty first line");
+}
+
+#[kani::proof]
+#[kani::unwind(8)]
+#[kani::stub(core::str::validations::run_utf8_validation, stdlite::run_utf8_validation)]
+#[kani::stub(core::slice::memchr::memchr, stdlite::memchr)]
+fn c12_leading_spaces_4() {
+    leading_spaces_n::<4>()
+}
+
+// ------------------------------------------------------------------------------------------
+// write_folded_block: reading the emitted body back with the folding rules of YAML `>` scalars
+// (a single break between two lines that both start with a non-space folds to one space; breaks
+// around blank or more-indented lines are kept) gives the original text plus one final newline.
+// ------------------------------------------------------------------------------------------
+/// Reference reader of a folded block body with known indentation `ind`. Appends the content to
+/// `out`; returns its length or None on malformed body.
+fn ref_unfold<const M: usize>(b: &[u8], ind: usize, out: &mut [u8; M]) -> Option<usize> {
+    let mut n = 0usize;
+    let mut i = 0usize;
+    // state about the previous content line
+    let mut have_prev = false;
+    let mut prev_plain = false; // previous line was non-empty and not more-indented
+    let mut pending_breaks = 0usize;
+    while i < b.len() {
+        // one physical line: [i, e) without the '\n'
+        let mut e = i;
+        while e < b.len() && b[e] != b'\n' {
+            e += 1;
+        }
+        if e == b.len() {
+            return None; // every emitted line ends with a newline
+        }
+        let line = &b[i..e];
+        // strip indentation (blank lines may be shorter)
+        let mut k = 0;
+        while k < ind && k < line.len() && line[k] == b' ' {
+            k += 1;
+        }
+        let content = &line[k..];
+        if content.is_empty() {
+            pending_breaks += 1;
+        } else {
+            if k < ind {
+                return None; // under-indented content
+            }
+            let more_indented = content[0] == b' ';
+            if have_prev {
+                // breaks between the previous content line and this one
+                let total = pending_breaks + 1;
+                if total == 1 && prev_plain && !more_indented {
+                    if n >= M {
+                        return None;
+                    }
+                    out[n] = b' ';
+                    n += 1;
+                } else {
+                    // folding keeps (total - 1) breaks between plain lines, all of them next to
+                    // more-indented lines
+                    let keep = if prev_plain && !more_indented { total - 1 } else { total };
+                    let mut q = 0;
+                    while q < keep {
+                        if n >= M {
+                            return None;
+                        }
+                        out[n] = b'\n';
+                        n += 1;
+                        q += 1;
+                    }
+                }
+            } else {
+                // leading blank lines are kept
+                let mut q = 0;
+                while q < pending_breaks {
+                    if n >= M {
+                        return None;
+                    }
+                    out[n] = b'\n';
+                    n += 1;
+                    q += 1;
+                }
+            }
+            let mut q = 0;
+            while q < content.len() {
+                if n >= M {
+                    return None;
+                }
+                out[n] = content[q];
+                n += 1;
+                q += 1;
+            }
+            have_prev = true;
+            prev_plain = !more_indented;
+            pending_breaks = 0;
+        }
+        i = e + 1;
+    }
+    Some(n)
+}
+
+/// End-to-end confirmation (stubbed to `true` for the solver; real round trip in the native replay):
+/// the text under the explicit folded wrapper, with this wrap column, does not read back as the
+/// same text modulo one trailing line break (the wrapper's documented clip chomping).
+pub(crate) fn e2e_folded_mismatch(s: &str, wrap: usize) -> bool {
+    let mut opts = crate::SerializerOptions::default();
+    opts.min_fold_chars = 0;
+    opts.folded_wrap_chars = wrap;
+    let y = match crate::to_string_with_options(&crate::FoldStr(s), opts) {
+        Ok(y) => y,
+        Err(_) => return true,
+    };
+    match crate::from_str::<String>(&y) {
+        Ok(b) => !(b == s || b.strip_suffix('\n') == Some(s)),
+        Err(_) => true,
+    }
+}
+
+pub(crate) fn e2e_true_folded(_s: &str, _wrap: usize) -> bool {
+    true
+}
+
+fn folded_n<const N: usize>() {
+    let a: [u8; N] = any_utf8::<N>();
+    // the caller strips trailing newlines and never passes control characters other than '\n'
+    let mut i = 0;
+    while i < N {
+        kani::assume(a[i] == b'\n' || a[i] >= 0x20);
+        i += 1;
+    }
+    kani::assume(a[N - 1] != b'\n' && a[0] != b'\n');
+    let wrap: usize = kani::any();
+    kani::assume(wrap >= 1 && wrap <= 3);
+    let mut sink = Sink::<24> { b: [0u8; 24], n: 0 };
+    let r = write_folded_block(&mut sink, as_str(&a), 1, 2, wrap);
+    assert!(r.is_ok());
+    let out = &sink.b[..sink.n];
+    let mut back = [0u8; 16];
+    match ref_unfold(out, 2, &mut back) {
+        Some(n) => {
+            let mut same = n == N;
+            let mut k = 0;
+            while k < N {
+                if k < n && back[k] != a[k] {
+                    same = false;
+                }
+                k += 1;
+            }
+            assert!(
+                same || !e2e_folded_mismatch(as_str(&a), wrap),
+                "folded block body does not unfold to the original text"
+            );
+            kani::cover!(sink.n > N + 3 + 2, "text was wrapped onto several lines");
+        }
+        None => assert!(!e2e_folded_mismatch(as_str(&a), wrap), "folded block body is malformed"),
+    }
+    std::mem::forget(r);
+}
+
+#[kani::proof]
+#[kani::unwind(10)]
+#[kani::stub(core::str::validations::run_utf8_validation, stdlite::run_utf8_validation)]
+#[kani::stub(core::slice::memchr::memchr, stdlite::memchr)]
+#[kani::stub(e2e_folded_mismatch, e2e_true_folded)]
+fn c20_folded_block_3() {
+    folded_n::<3>()
+}
+
+#[kani::proof]
+#[kani::unwind(12)]
+#[kani::stub(core::str::validations::run_utf8_validation, stdlite::run_utf8_validation)]
+#[kani::stub(core::slice::memchr::memchr, stdlite::memchr)]
+#[kani::stub(e2e_folded_mismatch, e2e_true_folded)]
+fn c20_folded_block_4() {
+    folded_n::<4>()
+}
+
+#[kani::proof]
+#[kani::unwind(14)]
+#[kani::stub(core::str::validations::run_utf8_validation, stdlite::run_utf8_validation)]
+#[kani::stub(core::slice::memchr::memchr, stdlite::memchr)]
+#[kani::stub(e2e_folded_mismatch, e2e_true_folded)]
+fn c20_folded_block_6() {
+    folded_n::<6>()
+}
 
 // concrete-playback slot: bin/check writes the solver counterexample here as a unit test for native replay
 include!("/verif/.build/playback/wrapping_pb.rs");
